@@ -449,12 +449,11 @@ class DiskCache(_CacheBase):
 
     def put(self, key: Hashable, value: Any) -> None:
         """Insert a key value pair into the cache."""
+        # Serialize first: a value that cannot be pickled must not truncate an existing entry
+        data = cloudpickle.dumps(value) if self.use_cloudpickle else pickle.dumps(value)
         file_path = self._get_file_path(key)
         with file_path.open("wb") as f:
-            if self.use_cloudpickle:
-                cloudpickle.dump(value, f)
-            else:
-                pickle.dump(value, f)
+            f.write(data)
         if self.with_lru_cache:
             self.lru_cache.put(key, value)
         self._evict_if_needed()
